@@ -162,7 +162,7 @@ def explore_generic(cfg, nodes, events, *, label, replay, engines=ENGINES, shape
     byid = {n.id: n for n in nodes}
     res = dict(states=0, transitions=0, executions=0, distinct_count=0, violations=[], samples=[], caps=[])
     for engine in engines:
-        h = Harness(cfg, with_plugin=True, extra_guards=guard_impls)
+        h = Harness(cfg, with_plugin=True, extra_guards=guard_impls, yielding=(engine == "async"))
         viol: List[Dict[str, Any]] = []
 
         def flag(clause, detail, hist, ev, engine=engine):
@@ -234,7 +234,7 @@ def replay(payload):
         cfg, nodes, events = follow.build(_tuplify(payload["spec"]))
         gi = {"armed": follow.armed_guard}
     byid = {n.id: n for n in nodes}
-    h = Harness(cfg, with_plugin=True, extra_guards=gi)
+    h = Harness(cfg, with_plugin=True, extra_guards=gi, yielding=(payload["engine"] == "async"))
     d = h.driver(payload["engine"])
     d.start()
     out = []
